@@ -270,7 +270,9 @@ macro_rules! impl_time_cast {
     ($($T: ty),*) => {
         $(
             impl<U: TimeUnitTrait> Cast<$T> for DateTime<U> {
-                #[inline] fn cast(self) -> $T { Cast::<i64>::cast(self).cast() }
+                #[inline] fn cast(self) -> $T {
+                    if self.is_none() { <$T as IsNone>::none() } else { Cast::<i64>::cast(self).cast() }
+                }
             }
 
             impl<U: TimeUnitTrait> Cast<Option<$T>> for DateTime<U> {
@@ -285,7 +287,9 @@ macro_rules! impl_time_cast {
 
 
             impl Cast<$T> for TimeDelta {
-                #[inline] fn cast(self) -> $T { Cast::<i64>::cast(self).cast() }
+                #[inline] fn cast(self) -> $T {
+                    if self.is_none() { <$T as IsNone>::none() } else { Cast::<i64>::cast(self).cast() }
+                }
             }
 
             impl Cast<Option<$T>> for TimeDelta {
@@ -299,7 +303,9 @@ macro_rules! impl_time_cast {
             }
 
             impl Cast<$T> for Time {
-                #[inline] fn cast(self) -> $T { Cast::<i64>::cast(self).cast() }
+                #[inline] fn cast(self) -> $T {
+                    if self.is_none() { <$T as IsNone>::none() } else { Cast::<i64>::cast(self).cast() }
+                }
             }
 
             impl Cast<Option<$T>> for Time {
